@@ -39,6 +39,19 @@ def _drv(name):
     return importlib.import_module("checks.c01_" + name)
 
 
+def setup_worker(tier):
+    """Own the garbage collector: scene graphs are cyclic, so when a replaced model / attenuator dies (and its
+    weak reference in a Notifier goes dead) would otherwise depend on allocation counts.  Automatic collection is
+    switched off and run_history collects at fixed points, which makes every history deterministic."""
+    import gc
+    for n in DRIVERS:
+        d = _drv(n)
+        d.observe(d.build(copy.deepcopy(d.STARTS[0])))
+    gc.collect()
+    gc.freeze()
+    gc.disable()
+
+
 def _ops(drv):
     return [(s, v) for s, vals in drv.SLOTS.items() for v in vals]
 
@@ -100,7 +113,9 @@ def run_history(drv, start, seq, mask, stats=None):
     """Returns None when the history is not in the space (an op is not enabled), else a dict
     {fail: None | descriptor, cfg, nontrivial}"""
     cfg = copy.deepcopy(drv.STARTS[start])
+    import gc
     scene = drv.build(copy.deepcopy(cfg))
+    gc.collect()
     pre = None
     post_obs_op = False
     for i, (slot, v) in enumerate(seq):
@@ -112,12 +127,15 @@ def run_history(drv, start, seq, mask, stats=None):
             drv.apply(scene, cfg, slot, v)
         except Exception as e:  # noqa - an op the model regards as supported raised
             return {"fail": ("op-raises", type(e).__name__, str(e)[:160]), "cfg": cfg, "nontrivial": False, "live": None, "ref": None}
+        gc.collect()   # objects replaced by this operation die here, deterministically
         if pre is not None:
             post_obs_op = True
         if stats is not None:
             stats["transitions"] += 1
             stats["states"].add(canon(cfg))
     live = _observe(drv, scene)
+    del scene
+    gc.collect()
     ref = _fresh(drv, cfg)
     bad = diff_groups(live, ref, RTOL)
     nontrivial = bool(post_obs_op and pre is not None and diff_groups(pre, ref, RTOL))
@@ -137,6 +155,8 @@ def minimise(drv, start, seq, mask):
     """Greedy reduction to a locally minimal failing history (every reduction is itself in the explored space)."""
     cur = (list(seq), mask)
     res = run_history(drv, start, cur[0], cur[1])
+    if res is None or not res["fail"]:
+        return list(seq), mask, None
     changed = True
     while changed:
         changed = False
@@ -257,6 +277,10 @@ def run_case(case):
             nontrivial.append((name, st, idxs, mask))
         if r["fail"]:
             mseq, mmask, mres = minimise(drv, st, seq, mask)
+            if mres is None:
+                # the same history did not fail when re-executed in this process: reported unminimised; the runner's
+                # fresh-process confirmation decides whether it is reproducible (otherwise it is a harness error)
+                mseq, mmask, mres = seq, mask, r
             sig = signature(name, mseq, mmask, mres["fail"])
             if sig not in seen_sigs:
                 seen_sigs.add(sig)
